@@ -10,6 +10,7 @@ import (
 
 	"github.com/itchyny/rassemble-go"
 
+	"github.com/coreruleset/crs-toolchain/v2/internal/verifhook"
 	"github.com/coreruleset/crs-toolchain/v2/regex"
 )
 
@@ -99,6 +100,7 @@ func NewCmdLine(ctx *Context, cmdType CmdLineType) *CmdLine {
 func (c *CmdLine) ProcessLine(line string) error {
 	if len(line) != 0 {
 		processed := c.regexpStr(line)
+		verifhook.Emit("cmdword", []string{line}, processed)
 		c.proc.lines = append(c.proc.lines, processed)
 		logger.Trace().Msgf("cmdline in: %s", line)
 		logger.Trace().Msgf("cmdline out: %s", processed)
@@ -113,6 +115,7 @@ func (c *CmdLine) Complete() ([]string, error) {
 		return nil, err
 	}
 	logger.Trace().Msgf("cmdLine Complete result: %v", assembly)
+	verifhook.Emit("join:cmdline", c.proc.lines, assembly)
 	return []string{assembly}, nil
 }
 
